@@ -167,8 +167,8 @@ theorem store_shown {inp : List UInt8} {G : Prop} {r : Reader} {x : FqRec} {its'
   refine ⟨by simp only [storeStep, hinc, List.length_append, List.length_singleton], ?_,
     viewAll_snoc hv hsh.view, ?_⟩
   · have hw : Win inp G (stepOver r) := by
-      obtain ⟨a, b, c, d, e, f, g, i, w, k⟩ := hsh.win
-      exact ⟨a, b, c, d, e, f, g, i, w, by simp only [stepOver]; omega⟩
+      obtain ⟨a, b, c, d, e, f, g, i, w, k, z⟩ := hsh.win
+      exact ⟨a, b, c, d, e, f, g, i, w, by simp only [stepOver]; omega, z⟩
     rcases hsh.rest with ⟨hst, hip, h1l, hits, -⟩ | ⟨hst, hits⟩
     · have hst2 : (stepOver r).state = .positioned := hst
       refine ⟨?_, Or.inl hst2⟩
@@ -636,8 +636,8 @@ theorem readSet_spec (inp : List UInt8) (G : Prop) (fuel : Nat) (r : Reader) (rs
     rw [heq]
     refine loop_from inp G fuel hfuel n hn _ rs its ?_ rfl
     have hw : Win inp G (stepOver r) := by
-      obtain ⟨⟨a, b, c, d, e, f, g, i, w, k⟩, hp⟩ := hb
-      exact ⟨a, b, c, d, e, f, g, i, w, by simp only [stepOver]; omega⟩
+      obtain ⟨⟨a, b, c, d, e, f, g, i, w, k, z⟩, hp⟩ := hb
+      exact ⟨a, b, c, d, e, f, g, i, w, by simp only [stepOver]; omega, z⟩
     have hb2 : Base inp G (stepOver r) := ⟨hw, h1l⟩
     refine good_positioned_of (hb2.set_state _) he ?_ hitems rfl
     intro ip h
